@@ -2,8 +2,10 @@ package main
 
 import (
 	"bytes"
+	"encoding/json"
 	"fmt"
 	"os"
+	"os/exec"
 	"regexp"
 	"sort"
 	"strings"
@@ -358,7 +360,81 @@ type c11Out struct {
 	readVal int64
 }
 
+// coldResult is what a cold-start child process prints.
+type coldResult struct {
+	Digest     uint64      `json:"digest"`
+	Nontrivial bool        `json:"nontrivial"`
+	Ticks      int64       `json:"ticks"`
+	V          []Violation `json:"violations"`
+	Trace      []int32     `json:"trace"`
+	Sample     interface{} `json:"sample"`
+}
+
+// runCold executes this very case in a fresh process in which nothing of the
+// library has run yet when the tasks start: lazily initialised package-level
+// state is then first touched from several tasks.
+func (p *c11) runCold(c *verifsim.Chooser, st *Stats, render bool) *Outcome {
+	o := &Outcome{}
+	args := []string{"-prop", "C11", "-cold-seed", fmt.Sprint(c.Seed0)}
+	if c.IsReplay() {
+		f, err := os.CreateTemp(os.Getenv("VERIF_TMP"), "cold-*.json")
+		if err != nil {
+			o.violate("C11/harness", "cold-start", "%v", err)
+			return o
+		}
+		defer os.Remove(f.Name())
+		b, _ := json.Marshal(c.ReplayValues())
+		f.Write(b)
+		f.Close()
+		args = []string{"-prop", "C11", "-cold-trace", f.Name()}
+	}
+	cmd := exec.Command(os.Args[0], args...)
+	cmd.Env = append(os.Environ(), "VERIF_C11_CHILD=1")
+	var ob, eb bytes.Buffer
+	cmd.Stdout, cmd.Stderr = &ob, &eb
+	done := make(chan error, 1)
+	if err := cmd.Start(); err != nil {
+		o.violate("C11/harness", "cold-start", "%v", err)
+		return o
+	}
+	go func() { done <- cmd.Wait() }()
+	var err error
+	select {
+	case err = <-done:
+	case <-time.After(25 * time.Second):
+		cmd.Process.Kill()
+		<-done
+		o.violate("C11/hang", "cold start", "a run whose tasks are the first users of the library in their process did not end within 25 s")
+		return o
+	}
+	var cr coldResult
+	if jerr := json.Unmarshal(ob.Bytes(), &cr); jerr != nil {
+		head := "no headline"
+		for _, l := range strings.Split(eb.String(), "\n") {
+			if strings.HasPrefix(l, "fatal error:") || strings.HasPrefix(l, "panic:") {
+				head = l
+				break
+			}
+		}
+		o.violate("C11/process-died", "cold start: "+head, "the fresh process died (%v):\n%s", err, clip(eb.String(), 1500))
+		return o
+	}
+	c.Adopt(cr.Trace)
+	o.Digest.U64(cr.Digest)
+	o.Nontrivial, o.Ticks, o.V = cr.Nontrivial, cr.Ticks, cr.V
+	st.probe("cold-start-runs(first use of the library inside tasks)")
+	if render {
+		o.Sample = cr.Sample
+	}
+	return o
+}
+
 func (p *c11) Run(c *verifsim.Chooser, st *Stats, render bool) *Outcome {
+	cold := c.Intn(60) == 1
+	inChild := os.Getenv("VERIF_C11_CHILD") != ""
+	if cold && !inChild {
+		return p.runCold(c, st, render)
+	}
 	o := &Outcome{}
 	currentDesc.Store("concurrency simulation")
 	verifsim.DiscardStdout()
@@ -389,6 +465,9 @@ func (p *c11) Run(c *verifsim.Chooser, st *Stats, render bool) *Outcome {
 		}
 		return ev
 	}
+	if cold {
+		nEvals = 0 // nothing is prepared before the tasks start
+	}
 	for i := 0; i < nEvals; i++ {
 		ev := mk(true)
 		if err := ev.build(); err != nil {
@@ -406,8 +485,11 @@ func (p *c11) Run(c *verifsim.Chooser, st *Stats, render bool) *Outcome {
 	}
 	plans := make([]*taskPlan, nTasks)
 	for t := 0; t < nTasks; t++ {
-		pl := &taskPlan{eval: c.Intn(nEvals)}
-		if c.Intn(4) == 1 {
+		pl := &taskPlan{}
+		if nEvals > 0 {
+			pl.eval = c.Intn(nEvals)
+		}
+		if c.Intn(4) == 1 || cold {
 			pl.own = mk(false)
 			pl.eval = -1
 		}
